@@ -33,6 +33,12 @@ impl Drop for Heap {
                 let layout =
                     alloc::Layout::from_size_align(self.inner.byte_cap, size_of::<HeapCellValue>())
                         .unwrap();
+                #[cfg(feature = "verif-hooks")]
+                let layout = alloc::Layout::from_size_align(
+                    self.inner.byte_cap + crate::verif::HEAP_GUARD,
+                    size_of::<HeapCellValue>(),
+                )
+                .unwrap();
                 alloc::dealloc(self.inner.ptr, layout);
             }
         }
@@ -64,8 +70,19 @@ impl InnerHeap {
             2 * self.byte_cap
         };
 
+        #[cfg(feature = "verif-hooks")]
+        if crate::verif::grow_should_fail(self.byte_len, self.byte_cap) {
+            return false;
+        }
+
         let new_layout =
             alloc::Layout::from_size_align(new_cap, size_of::<HeapCellValue>()).unwrap();
+        #[cfg(feature = "verif-hooks")]
+        let new_layout = alloc::Layout::from_size_align(
+            new_cap + crate::verif::HEAP_GUARD,
+            size_of::<HeapCellValue>(),
+        )
+        .unwrap();
 
         assert!(
             new_layout.size() <= isize::MAX as usize,
@@ -79,6 +96,12 @@ impl InnerHeap {
                 let old_layout =
                     alloc::Layout::from_size_align(self.byte_cap, size_of::<HeapCellValue>())
                         .unwrap();
+                #[cfg(feature = "verif-hooks")]
+                let old_layout = alloc::Layout::from_size_align(
+                    self.byte_cap + crate::verif::HEAP_GUARD,
+                    size_of::<HeapCellValue>(),
+                )
+                .unwrap();
                 alloc::realloc(self.ptr, old_layout, new_layout.size())
             }
         };
@@ -86,6 +109,10 @@ impl InnerHeap {
         if !new_ptr.is_null() {
             self.ptr = new_ptr;
             self.byte_cap = new_cap;
+            #[cfg(feature = "verif-hooks")]
+            unsafe {
+                crate::verif::paint_guard(self.ptr.add(self.byte_cap));
+            }
 
             true
         } else {
@@ -605,8 +632,21 @@ impl Heap {
                 size_of::<HeapCellValue>(),
             )
             .unwrap();
+            #[cfg(feature = "verif-hooks")]
+            let layout = alloc::Layout::from_size_align(
+                layout.size() + crate::verif::HEAP_GUARD,
+                size_of::<HeapCellValue>(),
+            )
+            .unwrap();
             alloc::alloc(layout)
         };
+
+        #[cfg(feature = "verif-hooks")]
+        if !ptr.is_null() {
+            unsafe {
+                crate::verif::paint_guard(ptr.add(heap_index!(cap)));
+            }
+        }
 
         if ptr.is_null() {
             Err(AllocError)
@@ -742,7 +782,27 @@ impl Heap {
     // free space in bytes.
     #[inline]
     fn free_space(&self) -> usize {
+        #[cfg(feature = "verif-hooks")]
+        if let Some(limit) = crate::verif::virtual_limit() {
+            return std::cmp::min(
+                self.inner.byte_cap - self.inner.byte_len,
+                limit.saturating_sub(self.inner.byte_len),
+            );
+        }
+
         self.inner.byte_cap - self.inner.byte_len
+    }
+
+    /// (verification hook) capacity in bytes and whether the guard region behind it is intact.
+    #[cfg(feature = "verif-hooks")]
+    pub(crate) fn verif_cap_and_guard(&self) -> (usize, bool) {
+        if self.inner.ptr.is_null() {
+            (0, true)
+        } else {
+            (self.inner.byte_cap, unsafe {
+                crate::verif::guard_intact(self.inner.ptr.add(self.inner.byte_cap))
+            })
+        }
     }
 
     pub(crate) fn char_iter<'a>(&'a self, pstr_loc: usize) -> PStrSegmentIter<'a> {
@@ -753,6 +813,11 @@ impl Heap {
     // the heap to a pre-allocated resource error
     pub(crate) fn push_cell(&mut self, cell: HeapCellValue) -> Result<(), AllocError> {
         unsafe {
+            #[cfg(feature = "verif-hooks")]
+            if self.inner.byte_len != self.inner.byte_cap && self.free_space() == 0 && !self.grow() {
+                return Err(AllocError);
+            }
+
             if self.inner.byte_len == self.inner.byte_cap && !self.grow() {
                 return Err(AllocError);
             }
